@@ -7,6 +7,8 @@ package c06
 import (
 	"archive/zip"
 	"bytes"
+	"compress/flate"
+	"hash/crc32"
 	"image"
 	"image/color"
 	"image/png"
@@ -163,12 +165,111 @@ type COp struct {
 }
 
 // ContainerOps lists the operators (for the evidence labels).
-var ContainerOps = []string{"nonzip", "truncate", "flip", "prefix", "suffix", "drop", "empty", "dir", "dup", "store", "media", "extra", "rotate", "emptyzip"}
+var ContainerOps = []string{"nonzip", "truncate", "flip", "prefix", "suffix", "drop", "empty", "dir", "dup", "store", "media", "extra", "rotate", "emptyzip", "forge", "forge", "localhdr"}
+
+// ForgeKinds are the ways the "forge" operator makes the zip directory lie about one entry (zip.Writer.CreateRaw with a
+// hand-filled header: the archive stays structurally valid, only the declared metadata is wrong).
+var ForgeKinds = []string{"usize-1<<62", "usize-1<<40", "usize-maxu32", "usize-maxu32+1", "usize-maxu32-1", "usize-x2", "usize-plus1", "usize-minus1", "usize-half", "usize-zero",
+	"crc", "csize-minus1", "csize-half", "csize-plus4", "method-99", "method-12", "method-store-lie"}
+
+// LocalHdrKinds: the local file header is patched after writing so that it disagrees with the central directory.
+var LocalHdrKinds = []string{"usize", "csize", "crc", "name", "method", "namelen"}
 
 type entry struct {
 	name  string
 	data  []byte
 	store bool
+	forge string // kind of forged directory metadata ("" = honest)
+}
+
+// writeForged writes one entry through CreateRaw with metadata that does not describe the stored bytes.
+func writeForged(zw *zip.Writer, e entry) {
+	var comp bytes.Buffer
+	fw, _ := flate.NewWriter(&comp, flate.DefaultCompression)
+	fw.Write(e.data)
+	fw.Close()
+	raw := comp.Bytes()
+	h := &zip.FileHeader{Name: e.name, Method: zip.Deflate, CRC32: crc32.ChecksumIEEE(e.data),
+		CompressedSize64: uint64(len(raw)), UncompressedSize64: uint64(len(e.data))}
+	n := uint64(len(e.data))
+	switch e.forge {
+	case "usize-1<<62":
+		h.UncompressedSize64 = 1 << 62
+	case "usize-1<<40":
+		h.UncompressedSize64 = 1 << 40
+	case "usize-maxu32":
+		h.UncompressedSize64 = 1<<32 - 1
+	case "usize-maxu32+1":
+		h.UncompressedSize64 = 1 << 32
+	case "usize-maxu32-1":
+		h.UncompressedSize64 = 1<<32 - 2
+	case "usize-x2":
+		h.UncompressedSize64 = 2*n + 7
+	case "usize-plus1":
+		h.UncompressedSize64 = n + 1
+	case "usize-minus1":
+		if n > 0 {
+			h.UncompressedSize64 = n - 1
+		}
+	case "usize-half":
+		h.UncompressedSize64 = n / 2
+	case "usize-zero":
+		h.UncompressedSize64 = 0
+	case "crc":
+		h.CRC32 ^= 0x5a5a5a5a
+	case "csize-minus1":
+		if len(raw) > 0 {
+			h.CompressedSize64 = uint64(len(raw) - 1)
+		}
+	case "csize-half":
+		h.CompressedSize64 = uint64(len(raw) / 2)
+	case "csize-plus4":
+		h.CompressedSize64 = uint64(len(raw) + 4)
+	case "method-99":
+		h.Method = 99
+	case "method-12":
+		h.Method = 12
+	case "method-store-lie":
+		h.Method = zip.Store // deflated bytes declared as stored
+		h.UncompressedSize64 = uint64(len(raw))
+	}
+	w, err := zw.CreateRaw(h)
+	if err != nil {
+		return
+	}
+	w.Write(raw)
+}
+
+// patchLocalHeader makes the local file header of the named entry disagree with the central directory.
+func patchLocalHeader(out []byte, name, kind string) []byte {
+	o := append([]byte{}, out...)
+	for i := 0; i+30+len(name) <= len(o); i++ {
+		if o[i] != 'P' || o[i+1] != 'K' || o[i+2] != 3 || o[i+3] != 4 {
+			continue
+		}
+		nl := int(o[i+26]) | int(o[i+27])<<8
+		if nl != len(name) || string(o[i+30:i+30+nl]) != name {
+			continue
+		}
+		switch kind {
+		case "usize":
+			o[i+22], o[i+23], o[i+24], o[i+25] = 0xff, 0xff, 0xff, 0x7f
+		case "csize":
+			o[i+18], o[i+19], o[i+20], o[i+21] = 0xff, 0xff, 0xff, 0x7f
+		case "crc":
+			o[i+14] ^= 0xff
+		case "name":
+			if nl > 0 {
+				o[i+30] ^= 0x20
+			}
+		case "method":
+			o[i+8] = 99
+		case "namelen":
+			o[i+26]++
+		}
+		return o
+	}
+	return o
 }
 
 // Build assembles the package bytes of a case (deterministic).
@@ -260,6 +361,12 @@ func (c *Case) Build() []byte {
 				}
 				ents = append(append([]entry{}, ents[k:]...), ents[:k]...)
 			}
+		case "forge":
+			for i := range ents {
+				if ents[i].name == op.Name {
+					ents[i].forge = op.S
+				}
+			}
 		case "emptyzip":
 			ents = nil
 		default:
@@ -269,6 +376,10 @@ func (c *Case) Build() []byte {
 	var buf bytes.Buffer
 	zw := zip.NewWriter(&buf)
 	for _, e := range ents {
+		if e.forge != "" {
+			writeForged(zw, e)
+			continue
+		}
 		m := zip.Deflate
 		if e.store {
 			m = zip.Store
@@ -294,6 +405,8 @@ func (c *Case) Build() []byte {
 				o[i] ^= 0x55
 				out = o
 			}
+		case "localhdr":
+			out = patchLocalHeader(out, op.Name, op.S)
 		case "prefix":
 			out = append([]byte(op.S), out...)
 		case "suffix":
